@@ -196,6 +196,7 @@ func (tree *ParserT) parseExpression(exec, incLogicalOps bool) error {
 
 		case '(':
 			// create sub expression
+			subExpStart := tree.charPos
 			tree.charPos++
 			branch := NewParser(tree.p, tree.expression[tree.charPos:], 0)
 			branch.charOffset = tree.charPos + tree.charOffset
@@ -219,6 +220,11 @@ func (tree *ParserT) parseExpression(exec, incLogicalOps bool) error {
 				tree.appendAst(symbols.SubExpressionBegin)
 			}
 			tree.charPos += branch.charPos - 1
+			if tree.charPos < subExpStart {
+				// nothing follows the opening parenthesis: the parser would
+				// otherwise step back and read the same '(' forever
+				return raiseError(tree.expression, nil, subExpStart, "missing closing parenthesis ')'")
+			}
 
 		case ')':
 			tree.charPos++
